@@ -58,6 +58,11 @@ pub struct Case {
     /// line was delivered completely must have taken effect.
     #[serde(default)]
     pub cut: Option<u32>,
+    /// Some(k): the k-th read of the shell from its standard input (a regular
+    /// file) fails with EIO. Same prefix oracle as for `cut`, the prefix being
+    /// what the shell had read before the error.
+    #[serde(default)]
+    pub eio: Option<u32>,
     pub units: Vec<Unit>,
     /// last line has no trailing newline
     pub no_final_newline: bool,
@@ -635,6 +640,7 @@ pub fn generate(rng: &mut Rng, tier: Tier) -> Case {
             && !units.iter().any(|u| u.verbose == Some(true));
     Case {
         cut: None,
+        eio: None,
         units,
         no_final_newline,
         trap,
@@ -993,6 +999,39 @@ fn check_run(exp: &Expect, variant: Variant, obs: &Observed) -> Option<Viol> {
 }
 
 fn run_one(c: &Case, variant: Variant, cfg: &SimConfig, decider: Decider) -> (Observed, Option<Viol>) {
+    if let Some(k) = c.eio {
+        let mut plain = c.clone();
+        plain.eio = None;
+        plain.no_final_newline = false;
+        let full = expect(&plain);
+        let spec = spec_of(&full, Variant::FileStdin);
+        let mut cfg = cfg.clone();
+        cfg.fail_read_at = Some(k);
+        cfg.fail_read_stdin_of = Some(2);
+        let obs = run_script_with(&spec, &cfg, decider, |_| {}, |_, _| true);
+        // what the shell had read when the error struck
+        let consumed: u64 = obs
+            .history
+            .iter()
+            .filter(|e| e.kind == "read" && e.pid == 2 && e.a == 0)
+            .map(|e| e.b as u64)
+            .sum();
+        let (_, prefix) = expect_cut(&plain, consumed as u32);
+        let mut v = check_cut(&prefix, Variant::FileStdin, &obs);
+        if v.is_none() && obs.counters.get("eio").copied().unwrap_or(0) > 0 && obs.status == "exited:0" && !full.reads_stdin {
+            // (a command reading the same input may swallow the error; the
+            // shell's own reader must not)
+            v = Some((
+                "trace".into(),
+                "eio:status".into(),
+                format!("the shell's read of its input failed with EIO but it exited with status 0; stderr {:?}", obs.stderr),
+            ));
+        }
+        if let Some(v) = &mut v {
+            v.1 = format!("eio:{}", v.1);
+        }
+        return (obs, v);
+    }
     if let Some(t) = c.cut {
         let (script, prefix) = expect_cut(c, t);
         let mut spec = spec_of(&prefix, variant);
@@ -1183,6 +1222,30 @@ impl Prop for C18 {
                 if let Some(v) = v {
                     stats.count("violating_runs", 1);
                     return Some(failure(&cut, variant, &cfg, &obs, v));
+                }
+            }
+        }
+        // a disk error: the k-th read of the input file fails with EIO
+        if !case.trap {
+            let reads = {
+                let (obs, _) = run_one(&case, Variant::FileStdin, &SimConfig::default(), Decider::record(Rng::new(1)));
+                obs.file_io.1
+            };
+            let eio_runs = match tier {
+                Tier::Quick => 1,
+                Tier::Thorough => 3,
+            };
+            for j in 0..eio_runs.min(reads) {
+                let mut e = case.clone();
+                e.eio = Some(1 + rng.below(reads));
+                let cfg = draw_config(&mut rng, 1 + j);
+                let (obs, v) = run_one(&e, Variant::FileStdin, &cfg, Decider::record(Rng::stream(seed, 1880 + j as u64, index)));
+                stats.note_run(case_hash ^ 0xE10 ^ (j as u64) << 20, &obs.outcome, obs.faults_fired);
+                stats.add_counters(&obs.counters);
+                stats.digest(index, obs_digest(&obs));
+                if let Some(v) = v {
+                    stats.count("violating_runs", 1);
+                    return Some(failure(&e, Variant::FileStdin, &cfg, &obs, v));
                 }
             }
         }
